@@ -179,8 +179,17 @@ def r2_fresh_state(ctx):
         recv = c.func.value if isinstance(c.func, ast.Attribute) else None
         good = False
         if isinstance(recv, ast.Name):
+            def fresh(d, depth=0):
+                if rr.in_loop(d.node):
+                    return False
+                if isinstance(d.value, ast.Call) and any(d.value is cc for (_, cc) in ctor):
+                    return True
+                if isinstance(d.value, ast.Name) and depth < 3:       # a plain copy (the result variable of an expanded helper)
+                    ds = rr.rd.at(d.node, d.value.id)
+                    return bool(ds) and all(fresh(dd, depth + 1) for dd in ds)
+                return False
             defs = rr.rd.at(n, recv.id)
-            good = bool(defs) and all(isinstance(d.value, ast.Call) and any(d.value is cc for (_, cc) in ctor) and not rr.in_loop(d.node) for d in defs)
+            good = bool(defs) and all(fresh(d) for d in defs)
         elif recv is not None and field_name(recv, 'self') == 'self._runstate':
             good = ok
         rep.ob('C11.R2', ctx.loc(f, c), ctx.src(c), good,
